@@ -306,6 +306,7 @@ func (e *Env) Canon(v APoint) (*canonEntry, bool) {
 // ---------- replay ----------
 
 type regs struct {
+	direct bool
 	S    map[string]kyber.Scalar
 	P    map[string]kyber.Point
 	expS map[string][]byte
@@ -338,16 +339,32 @@ func (e *Env) key(st Step, kind string) string {
 	return fmt.Sprintf("%s/%s/%s/%s/%s", e.Prop, e.G.Name, st.Op, alias(st), kind)
 }
 
+// snapS encodes a scalar register directly: going through Clone would hide a
+// non-canonical (unreduced) value, since Clone may re-reduce it.
 func snapS(s kyber.Scalar) []byte {
-	b, err := s.Clone().MarshalBinary()
+	b, err := s.MarshalBinary()
 	if err != nil {
 		return []byte("err:" + err.Error())
+	}
+	c, err := s.Clone().MarshalBinary()
+	if err != nil || !bytes.Equal(b, c) {
+		return []byte("clone-encodes-differently:" + hex.EncodeToString(b) + "/" + hex.EncodeToString(c))
 	}
 	return b
 }
 
-func snapP(p kyber.Point) []byte {
-	b, err := p.Clone().MarshalBinary()
+// snapP encodes a point register. Encoding a clone keeps the register's
+// internal (possibly non-normalised) coordinates untouched for the following
+// steps; encoding the register itself exposes values a Clone would repair.
+// Behaviours alternate between the two (direct flag).
+func snapP(p kyber.Point, direct bool) []byte {
+	var b []byte
+	var err error
+	if direct {
+		b, err = p.MarshalBinary()
+	} else {
+		b, err = p.Clone().MarshalBinary()
+	}
 	if err != nil {
 		return []byte("err:" + err.Error())
 	}
@@ -367,7 +384,8 @@ func (e *Env) Replay(bh Behaviour, bhID string) int {
 		return 0
 	}
 	r := &regs{S: map[string]kyber.Scalar{}, P: map[string]kyber.Point{}, expS: map[string][]byte{},
-		expP: map[string][]byte{}, absS: map[string]AScalar{}, absP: map[string]APoint{}}
+		expP: map[string][]byte{}, absS: map[string]AScalar{}, absP: map[string]APoint{},
+		direct: core.Hash64("snap", bhID)%2 == 0}
 	for _, n := range sRegs {
 		a := bh[0].S[n]
 		res, ok := e.Eval(a)
@@ -624,7 +642,7 @@ func (e *Env) step(r *regs, st Step, bh Behaviour, idx int, bhID string) bool {
 	}
 	if len(r.P) > 0 {
 		for _, n := range pRegs {
-			got := snapP(r.P[n])
+			got := snapP(r.P[n], r.direct)
 			if !bytes.Equal(got, r.expP[n]) {
 				kind := "operand-changed:" + role(st, n)
 				what := fmt.Sprintf("%s on %s changed point register %s which is not its receiver", st.Op, g.Name, n)
